@@ -430,9 +430,59 @@ def check(ctx, fx):
             out[frozenset(ctxt)] += 1
         return out
 
+    def foreign_guards(f):
+        """conditions OUTSIDE the vocabulary that guard a refusal (an edge of theirs dominates a `return false`), with the names of
+        locals blanked: the twins may call a local differently, they may not make a refusal depend on something the other does
+        not look at (`if (host_view.empty() && is_special() && type != HTTP) return false`)."""
+        blocks = {b_["id"]: b_ for b_ in f["blocks"]}
+        preds = {}
+        for b_ in f["blocks"]:
+            for e in b_["succ"]:
+                if not e.get("pruned"):
+                    preds.setdefault(e["to"], []).append(b_["id"])
+        inits_ = C.single_inits(f)
+        from lib.loops import dominators
+        dom, _p = dominators(f)
+        names = {v["name"] for bb in f["blocks"] for st in bb["stmts"] if st["k"] == "decl" for v in st["vars"]} | \
+            {p_["name"] for p_ in f.get("params", [])}
+        out = set()
+        for b_ in f["blocks"]:
+            if not any(st["k"] == "return" and st.get("e") is not None and X.show(X.strip(st["e"])) == "false" for st in b_["stmts"]):
+                continue
+            for d in dom.get(b_["id"], ()):
+                db = blocks[d]
+                c = C.term_cond(db)
+                succ = [e for e in db["succ"] if not e.get("pruned") and e.get("when") in ("true", "false")]
+                if c is None or len(succ) != 2 or d == b_["id"]:
+                    continue
+                for e in succ:
+                    tgt = e["to"]
+                    other = [x["to"] for x in succ if x is not e][0]
+                    if tgt in dom.get(b_["id"], ()) and other not in dom.get(b_["id"], ()) and len(preds.get(tgt, [])) == 1:
+                        c0 = X.strip(C.resolve_flag(c, inits_))
+                        while isinstance(c0, dict) and c0.get("k") == "un" and c0.get("op") == "!":
+                            c0 = X.strip(c0["e"])
+                        if isinstance(c0, dict) and c0.get("k") == "bin" and c0.get("op") in ("&&", "||"):
+                            continue
+                        t = canon(X.show(c0)) if isinstance(c0, dict) else None
+                        if t is None:
+                            continue
+                        t = t[1:] if t.startswith("!") else t
+                        if t in VOCAB:
+                            continue
+                        for nm in sorted((x for x in names if x), key=len, reverse=True):
+                            t = re.sub(r"\b%s\b" % re.escape(nm), "$", t)
+                        out.add(t)
+        return out
+
     for inst in ("<true>", "<false>"):
         a, fa = sk[("ada::url", inst)]
         b, fb = sk[("ada::url_aggregator", inst)]
+        ga, gb = foreign_guards(fa), foreign_guards(fb)
+        ctx.check("I3", "set_host_or_hostname%s: no refusal depends on a condition its twin does not test" % inst, ga == gb,
+                  ", ".join(sorted(ga)) or "none",
+                  "a refusal of ada::url also depends on %s, one of ada::url_aggregator on %s: the two types refuse different values"
+                  % (sorted(ga - gb) or "nothing more", sorted(gb - ga) or "nothing more"), where=fb["loc"].replace("/repo/", ""))
         same = a == b
         if not same:
             # the same refusals may be written with the shared test hoisted (nested ifs) in one copy: compare what each
